@@ -30,6 +30,10 @@ def main():
     if props is None:
         props = [meta.get("breaks") or meta.get("property")]
     patch = f"{seed}/patch.diff"
+    # /repo is shared with fix commits: whoever modifies its working tree holds this lock
+    import fcntl
+    lock = open("/verif/work/repo.lock", "w")
+    fcntl.flock(lock, fcntl.LOCK_EX)
     st = sh("git -C /repo status --porcelain").stdout.strip()
     if st:
         print("refusing: /repo is not clean:\n" + st)
